@@ -24,6 +24,13 @@ func docsEqual(a, b bsonkit.Doc) bool {
 	return bytes.Equal(aBytes, bBytes)
 }
 
+// sameValue reports whether two values are the same BSON value (same type and
+// same serialized bytes). Comparing the interface values directly panics for
+// documents, arrays and binaries.
+func sameValue(a, b interface{}) bool {
+	return docsEqual(&bson.D{{Key: "v", Value: a}}, &bson.D{{Key: "v", Value: b}})
+}
+
 // Result is returned by collection operations.
 type Result struct {
 	// The list of found or deleted documents.
@@ -178,7 +185,7 @@ func (c *Collection) Replace(query, repl, sort bsonkit.Doc) (*Result, error) {
 		if err != nil {
 			return nil, err
 		}
-	} else if replID != bsonkit.Get(list[0], "_id") {
+	} else if !sameValue(replID, bsonkit.Get(list[0], "_id")) {
 		return nil, fmt.Errorf("document _id is immutable")
 	}
 
@@ -273,7 +280,7 @@ func (c *Collection) Update(query, update, sort bsonkit.Doc, skip, limit int, ar
 
 	// check ids
 	for i, doc := range newList {
-		if bsonkit.Get(doc, "_id") != bsonkit.Get(list[i], "_id") {
+		if !sameValue(bsonkit.Get(doc, "_id"), bsonkit.Get(list[i], "_id")) {
 			return nil, fmt.Errorf("document _id is immutable")
 		}
 	}
